@@ -1199,6 +1199,11 @@ class PrunedFn:
         body = prune(fi.node.body, consts)
         node = ast.FunctionDef(name=fi.node.name, args=fi.node.args, body=body or [ast.Pass()], decorator_list=[], returns=None)
         ast.copy_location(node, fi.node)
+        if PROG is not None and getattr(PROG, "desugarer", None) is not None:
+            # option dicts / name tuples that differed between the decided branches are literal now
+            from . import desugar as _ds
+            cls_node = getattr(getattr(fi, "cls", None), "node", None)
+            node = _ds.respecialise(PROG.desugarer, fi.mod, node, cls_node)
         self.node = node
 
 
